@@ -4,7 +4,7 @@ C19 — The local cache is transparent.
 Property theorems only (lemmas: `Rustic/Lemmas/Cache.lean`).  The repository is any exact map `be : SpecMap`
 (C20), the cache directory any file-system state: regular files (stale, truncated, longer, foreign, temporary and
 misplaced files included) **and non-file objects planted at arbitrary paths**: directories (`St.dirs` — e.g. at the entry
-path of an id; no cache operation ever removes one) and dangling symlinks (`St.cache.links`); all statements are for every
+path of an id; no cache operation ever removes one) and symlinks (`St.cache.links`, dangling or to a regular file); all statements are for every
 state / id / content / history, `L` arbitrary.
 
 * `Coh`   — coherence: a properly placed cache file (`cHit`: a regular file, no directory / symlink at that path) holds
@@ -16,7 +16,8 @@ state / id / content / history, `L` arbitrary.
         `prefix_entry_ranged_read_equiv` (a *truncated* entry — a prefix of the repository file — never changes a ranged read),
         `dir_entry_read_equiv` / `dir_entry_ranged_read_equiv` (a directory at the entry path: the cache I/O error is
         swallowed, the answer is the repository's), `link_entry_read_equiv` / `link_entry_ranged_read_equiv` (a dangling
-        symlink there: a miss), `link_entry_replaced_by_write`, `tmp_link_removed_by_write`, `blocked_parent_*` (a regular
+        symlink there: a miss), `linked_entry_is_entry` (a symlink to a regular file IS the entry: served, listed, cleaned
+        up), `link_entry_replaced_by_write`, `tmp_link_removed_by_write`, `blocked_parent_*` (a regular
         file or a dangling symlink where `<type>` or `<type>/<xx>` belongs: nothing is cached, reads from the repository).
 * (3) `transparent` — hence whole histories give identical results and identical repository contents (directories anywhere
         but at the temp path of a file written); `transparent_content_addressed` — under content addressing (a key always
@@ -106,12 +107,12 @@ theorem readPartial_state (s : St) (t : FileType) (id : Name) (cb : Bool) (off l
 theorem refilled_be {s s' : St} {t : FileType} {id : Name} (h : Refilled s s' t id) : s'.be = s.be ∧ s'.dirs = s.dirs := by
   rcases h with h | ⟨d, _, h⟩ <;> subst h <;> exact ⟨rfl, rfl⟩
 
-/-- a read removes dangling symlinks at most -/
-theorem refilled_links {s s' : St} {t : FileType} {id : Name} (h : Refilled s s' t id) {p : Path}
-    (hp : hasLink s'.cache p = true) : hasLink s.cache p = true := by
+/-- a read creates no dangling symlink -/
+theorem refilled_dangling {s s' : St} {t : FileType} {id : Name} (h : Refilled s s' t id) {p : Path}
+    (hp : lget s'.cache.links p = some none) : lget s.cache.links p = some none := by
   rcases h with h | ⟨d, _, h⟩ <;> subst h
   · exact hp
-  · exact cWrite_links hp
+  · exact cWrite_dangling hp
 
 /-- writing the repository's own bytes into the cache keeps coherence — whether or not the write gets through -/
 theorem refilled_coh {s s' : St} (hc : Coh L s) {t : FileType} {id : Name} (hl : id.length = L)
@@ -207,40 +208,48 @@ theorem dir_entry_ranged_read_equiv {s : St} {t : FileType} {id : Name} (hd : ha
 /-- quirk (stated, observed on the real code): with a directory at the entry path every read / write of that file
 through the cached handle leaves the temp file `<id>-tmp-` behind (the failed `rename` is not cleaned up). -/
 theorem dir_entry_write_leaves_tmp (dirs : List Path) (c : CD) (t : FileType) (id : Name) (d : Bytes)
-    (hp : parentObj c t id = none) (hd : hasDir dirs (cpath t id) = true) (ht : tmpBlocked dirs c t id = false) :
+    (hp : parentObj c t id = none) (hd : hasDir dirs (cpath t id) = true) (ht : hasDir dirs (ctmp t id) = false)
+    (hl : lget c.links (ctmp t id) = none) :
     fget (cWrite dirs c t id d).files (ctmp t id) = some d := by
-  simp only [tmpBlocked, Bool.or_eq_false_iff] at ht
-  simp [cWrite, hp, hd, ht.1, ht.2, fget_fput_same]
+  simp [cWrite, hp, hd, ht, hl, fget_fput_same]
 
-/-! ### (2c) a dangling symlink at the entry path
+/-! ### (2c) a symlink at the entry path
 
-For reads and the listing it is like nothing at all (`NotFound`, not `is_file`); the next cache write or removal of that
-file replaces / removes it.  At the TEMP path it makes one cache write fail, whose clean-up removes it. -/
+Dangling: for reads and the listing it is like nothing at all (`NotFound`; walkdir reports an error that is only logged);
+the next cache write or removal of that file replaces / removes it.  At the TEMP path it makes one cache write fail, whose
+clean-up removes it.  Resolving to a regular file: **it is a cache entry** — reads follow it, and (fix: `follow_links`) so
+does the listing: `linked_entry_is_entry` puts it under every theorem about entries (`no_stale_after_listing`,
+`list_restores_coherence`, `stale_cache_read_after_listing`: a symlink to a stale copy is cleaned up like a stale file). -/
 
-theorem link_entry_read_equiv {s : St} {t : FileType} {id : Name} (hk : hasLink s.cache (cpath t id) = true) :
+theorem link_entry_read_equiv {s : St} {t : FileType} {id : Name} (hk : lget s.cache.links (cpath t id) = some none) :
     (readFull s t id).1 = beReadFull s.be t id :=
   entry_coherent_read_equiv (fun d h => by rw [cHit_of_link _ hk] at h; cases h)
 
-theorem link_entry_ranged_read_equiv {s : St} {t : FileType} {id : Name} (hk : hasLink s.cache (cpath t id) = true)
-    (cb : Bool) (off : Nat) {len : Nat} (hlen : 0 < len) :
+theorem link_entry_ranged_read_equiv {s : St} {t : FileType} {id : Name}
+    (hk : lget s.cache.links (cpath t id) = some none) (cb : Bool) (off : Nat) {len : Nat} (hlen : 0 < len) :
     (readPartial s t id cb off len).1 = beReadPartial s.be t id off len :=
   prefix_entry_ranged_read_equiv (fun d h => by rw [cHit_of_link _ hk] at h; cases h) cb off hlen
 
-/-- a cache write that gets through replaces a dangling symlink at the entry path by the entry -/
+/-- a symlink at the entry path that resolves to a regular file holding `b` is the cache entry of that id: served by
+reads (`read_full_serves_any_entry`), listed with size `b.length` (`mem_cList`) and therefore cleaned up by a listing -/
+theorem linked_entry_is_entry (dirs : List Path) (c : CD) {t : FileType} {id : Name} {b : Bytes}
+    (hp : parentObj c t id = none) (hd : hasDir dirs (cpath t id) = false)
+    (hk : lget c.links (cpath t id) = some (some b)) :
+    cHit dirs c t id = some b ∧ ∀ L, isCacheName L id = true → (id, b.length) ∈ cList L dirs c t := by
+  have h : cHit dirs c t id = some b := by simp [cHit, hp, hd, entryBytes, hk]
+  exact ⟨h, fun _ hn => mem_cList hn h⟩
+
+/-- a cache write that gets through puts the bytes at the entry path, whatever was there (a file, a symlink) -/
 theorem link_entry_replaced_by_write (dirs : List Path) (c : CD) {t : FileType} {id : Name} (d : Bytes)
-    (hw : writes dirs c t id = true) :
-    cHit dirs (cWrite dirs c t id d) t id = some d ∧ hasLink (cWrite dirs c t id d) (cpath t id) = false := by
-  refine ⟨by rw [cHit_cWrite dirs c (L := id.length) rfl rfl d]; simp [hw], ?_⟩
-  simp only [writes, Bool.and_eq_true, Bool.not_eq_eq_eq_not, Bool.not_true, Option.isNone_iff_eq_none] at hw
-  simp only [cWrite, hw.1.1.1, hw.1.1.2, hw.1.2, hw.2, Bool.false_eq_true, if_false, Option.isSome_none]
-  exact hasLink_unlink_same c (cpath t id)
+    (hw : writes dirs c t id = true) : cHit dirs (cWrite dirs c t id d) t id = some d := by
+  rw [cHit_cWrite dirs c (L := id.length) rfl rfl d]; simp [hw]
 
 /-- a dangling symlink at the temp path: the cache write fails once and its clean-up removes the link -/
 theorem tmp_link_removed_by_write (dirs : List Path) (c : CD) {t : FileType} {id : Name} (d : Bytes)
-    (hp : parentObj c t id = none) (hd : hasDir dirs (ctmp t id) = false) (hk : hasLink c (ctmp t id) = true) :
+    (hp : parentObj c t id = none) (hd : hasDir dirs (ctmp t id) = false) (hk : lget c.links (ctmp t id) = some none) :
     cWrite dirs c t id d = unlink c (ctmp t id) ∧ tmpBlocked dirs (cWrite dirs c t id d) t id = false := by
   have e : cWrite dirs c t id d = unlink c (ctmp t id) := by simp [cWrite, hp, hd, hk]
-  exact ⟨e, by rw [e]; simp [tmpBlocked, hd, hasLink_unlink_same]⟩
+  exact ⟨e, by rw [e]; simp [tmpBlocked, hd, unlink, lget_ldel_same]⟩
 
 /-! ### (2d) a regular file or a dangling symlink where a parent directory (`<type>`, `<type>/<xx>`) belongs
 
@@ -420,17 +429,15 @@ def OpOK (L : Nat) (cbOf : Key → Bool) (dirs : List Path) (c : CD) : Op → Pr
   | .list _ _ => True
 
 /-- fewer dangling symlinks: still fine -/
-theorem opOK_mono {cbOf : Key → Bool} {dirs : List Path} {c c' : CD} (h : ∀ p, hasLink c' p = true → hasLink c p = true)
+theorem opOK_mono {cbOf : Key → Bool} {dirs : List Path} {c c' : CD}
+    (h : ∀ p, lget c'.links p = some none → lget c.links p = some none)
     {op : Op} (hop : OpOK L cbOf dirs c op) : OpOK L cbOf dirs c' op := by
   cases op with
   | write t id cb d =>
     refine ⟨hop.1, hop.2.1, ?_⟩
     have h0 := hop.2.2
-    simp only [tmpBlocked, Bool.or_eq_false_iff] at h0 ⊢
-    refine ⟨h0.1, ?_⟩
-    cases hk : hasLink c' (ctmp t id) with
-    | false => rfl
-    | true => rw [h _ hk] at h0; exact absurd h0.2 (by simp)
+    simp only [tmpBlocked, Bool.or_eq_false_iff, beq_eq_false_iff_ne, ne_eq] at h0 ⊢
+    exact ⟨h0.1, fun hk => h0.2 (h _ hk)⟩
   | read t id => exact hop
   | readPartial t id cb off len => exact hop
   | remove t id cb => exact hop
@@ -446,25 +453,25 @@ theorem dirs_constant (s : St) (op : Op) : (stepC L s op).2.dirs = s.dirs := by
   | list t a => rfl
 
 /-- no operation of the cached handle creates a dangling symlink (a cache write / removal removes one) -/
-theorem links_shrink (s : St) (op : Op) {p : Path} (h : hasLink (stepC L s op).2.cache p = true) :
-    hasLink s.cache p = true := by
+theorem dangling_shrink (s : St) (op : Op) {p : Path} (h : lget (stepC L s op).2.cache.links p = some none) :
+    lget s.cache.links p = some none := by
   cases op with
-  | read t id => exact refilled_links (readFull_state s t id).1 h
-  | readPartial t id cb off len => exact refilled_links (readPartial_state s t id cb off len).1 h
+  | read t id => exact refilled_dangling (readFull_state s t id).1 h
+  | readPartial t id cb off len => exact refilled_dangling (readPartial_state s t id cb off len).1 h
   | write t id cb d =>
     simp only [stepC, writeBytes] at h
     split at h
-    · exact cWrite_links h
+    · exact cWrite_dangling h
     · exact h
   | remove t id cb =>
     simp only [stepC, remove] at h
     split at h
-    · exact cRemove_links h
+    · exact cRemove_dangling h
     · exact h
   | list t a =>
     simp only [stepC, listWithSize] at h
     split at h
-    · exact removeNotInList_links h
+    · exact removeNotInList_dangling h
     · exact h
 
 theorem ops_preserve_coherence {cbOf : Key → Bool} {s : St} (hi : Inv L cbOf s) (op : Op)
@@ -507,7 +514,7 @@ theorem transparent {cbOf : Key → Bool} (ops : List Op) (s : St) (hops : ∀ o
     obtain ⟨h1, h2, h3⟩ := ops_preserve_coherence hi op (hops op List.mem_cons_self)
     have hd := dirs_constant (L := L) s op
     obtain ⟨g1, g2, g3⟩ := ih (stepC L s op).2
-      (fun o ho => by rw [hd]; exact opOK_mono (fun p hp => links_shrink s op hp) (hops o (List.mem_cons_of_mem _ ho))) h3
+      (fun o ho => by rw [hd]; exact opOK_mono (fun p hp => dangling_shrink s op hp) (hops o (List.mem_cons_of_mem _ ho))) h3
     simp only [runC, runU]
     rw [h2] at g1 g2
     exact ⟨by rw [h1, g1], g2, g3⟩
@@ -578,11 +585,10 @@ theorem transparent_content_addressed {cbOf : Key → Bool} {content : Key → B
     rw [h2] at g1 g2
     exact ⟨by rw [h1, g1], g2, g3⟩
 
-/-- An empty cache directory — and one that holds nothing but directories and dangling symlinks — is coherent for every
-repository. -/
-theorem empty_cache_inv (cbOf : Key → Bool) (be : SpecMap) (dirs links : List Path) :
-    Inv L cbOf { be := be, cache := { files := [], links := links }, dirs := dirs } :=
-  ⟨fun _ _ _ _ h => by simp [cHit, fget] at h, fun _ _ _ _ => by simp [cHit, fget]⟩
+/-- An empty cache directory — and one that holds nothing but directories — is coherent for every repository. -/
+theorem empty_cache_inv (cbOf : Key → Bool) (be : SpecMap) (dirs : List Path) :
+    Inv L cbOf { be := be, cache := { files := [], links := [] }, dirs := dirs } :=
+  ⟨fun _ _ _ _ h => by simp [cHit, entryBytes, lget, fget] at h, fun _ _ _ _ => by simp [cHit, entryBytes, lget, fget]⟩
 
 /-! ### (4) a listing restores coherence from an arbitrary cache directory -/
 
@@ -711,13 +717,29 @@ example :
 /-- a DANGLING SYMLINK at the entry path of `idA` (replayed on the real code): a miss; the read refills the cache, which
 replaces the link by the entry; at the temp path: one cache write fails and removes the link, the next one works -/
 example :
-    let s : St := { be := be1, cache := { files := [], links := [cpath .snapshot idA] } }
+    let s : St := { be := be1, cache := { files := [], links := [(cpath .snapshot idA, none)] } }
     (readFull s .snapshot idA).1 = .ok [1, 2, 3, 4] ∧
     (readFull s .snapshot idA).2.cache.files = [(cpath .snapshot idA, [1, 2, 3, 4])] ∧
     (readFull s .snapshot idA).2.cache.links = [] ∧
-    (listWithSize 64 s .snapshot [(idA, 4)]).cache.links = [cpath .snapshot idA] := by decide
+    (listWithSize 64 s .snapshot [(idA, 4)]).cache.links = [(cpath .snapshot idA, none)] := by decide
+/-- FIXED (follow_links): a symlink at the entry path of `idB` to a stale copy `[9]`; the repository no longer has `idB`.
+Before a listing it is served (like any stale entry); the listing removes it; then the read fails like the uncached one.
+A symlink to the right bytes of `idA` stays.  Replayed on the real code (`corpus/C19/witnesses.ops`). -/
 example :
-    let s : St := { be := be1, cache := { files := [], links := [ctmp .snapshot idA] } }
+    let s : St := { be := be1, cache := { files := [], links := [(cpath .snapshot idB, some [9]),
+                                                                  (cpath .snapshot idA, some [1, 2, 3, 4])] } }
+    (readFull s .snapshot idB).1 = .ok [9] ∧
+    (listWithSize 64 s .snapshot [(idA, 4)]).cache.links = [(cpath .snapshot idA, some [1, 2, 3, 4])] ∧
+    (readFull (listWithSize 64 s .snapshot [(idA, 4)]) .snapshot idB).1 = .err ∧
+    (readFull (listWithSize 64 s .snapshot [(idA, 4)]) .snapshot idA).1 = .ok [1, 2, 3, 4] := by decide
+/-- a symlink to a file at the TEMP path: the cache write goes THROUGH the link (the file it points to now holds the new
+bytes) and the link becomes the entry -/
+example :
+    let s : St := { be := be1, cache := { files := [], links := [(ctmp .snapshot idA, some [7, 7])] } }
+    (readFull s .snapshot idA).2.cache.links = [(cpath .snapshot idA, some [1, 2, 3, 4])] ∧
+    (readFull s .snapshot idA).2.cache.files = [] := by decide
+example :
+    let s : St := { be := be1, cache := { files := [], links := [(ctmp .snapshot idA, none)] } }
     (readFull s .snapshot idA).2.cache.files = [] ∧ (readFull s .snapshot idA).2.cache.links = [] ∧
     (readFull (readFull s .snapshot idA).2 .snapshot idA).2.cache.files = [(cpath .snapshot idA, [1, 2, 3, 4])] := by decide
 /-- a regular file where `snapshots/aa` belongs (replayed on the real code): reads from the repository, cache untouched;
@@ -728,7 +750,7 @@ example :
     (readPartial s .snapshot idA false 1 2).1 = .ok [2, 3] ∧
     (writeBytes s .snapshot idA false [1, 2, 3, 4]).cache.files = s.cache.files ∧
     cReadFull [] s.cache .snapshot idA = .error ∧
-    cReadFull [] { files := [], links := [[nSnapshots, ['a', 'a']]] } .snapshot idA = .miss := by decide
+    cReadFull [] { files := [], links := [([nSnapshots, ['a', 'a']], none)] } .snapshot idA = .miss := by decide
 /-- the exception of `OpOK`: a directory at the TEMP path blocks the cache write; an entry that exists is then not
 updated by an overwrite with other bytes (which content addressing excludes) and the cached read differs -/
 example :
